@@ -105,9 +105,79 @@ Proof.
   - intros b NE. apply (get_upd_other a b f _ N). congruence.
 Qed.
 
+(** [clear_server]: only the server field of that one instance; nothing when the instance names no server *)
+Lemma clear_server_unplaced c a x : get_app a (c_apps c) = Some x -> a_server x = None -> clear_server c a = c.
+Proof. intros G H. unfold clear_server. rewrite G, H. reflexivity. Qed.
+
+Lemma clear_server_absent c a : get_app a (c_apps c) = None -> clear_server c a = c.
+Proof. intros G. unfold clear_server. rewrite G. reflexivity. Qed.
+
+Lemma clear_server_servers c a : c_servers (clear_server c a) = c_servers c.
+Proof. unfold clear_server. destruct (get_app a (c_apps c)) as [x|]; [|reflexivity]. destruct (a_server x); reflexivity. Qed.
+
+Lemma frame_clear_server c a b : b <> a -> get_app b (c_apps (clear_server c a)) = get_app b (c_apps c).
+Proof.
+  intros NE. unfold clear_server. destruct (get_app a (c_apps c)) as [x|]; [|reflexivity].
+  destruct (a_server x); [|reflexivity]. unfold c_upd_app. cbn. apply get_upd_other; [reflexivity|congruence].
+Qed.
+
+Lemma get_app_name_eq n l a : get_app n l = Some a -> a_name a = n.
+Proof.
+  induction l as [|y l IH]; cbn; [discriminate|]. destruct (Z.eqb (a_name y) n) eqn:E; [|exact IH].
+  intros H. inversion H; subst. apply Z.eqb_eq. exact E.
+Qed.
+
+(** the instance itself after [clear_server]: the same record with the server field cleared *)
+Lemma clear_server_get c a x :
+  get_app a (c_apps c) = Some x -> get_app a (c_apps (clear_server c a)) = Some (x <| a_server := None |>).
+Proof.
+  intros G. unfold clear_server. rewrite G. destruct (a_server x) eqn:S.
+  - unfold c_upd_app. cbn. destruct (get_upd_same a (fun y : app => y <| a_server := None |>) (c_apps c) x G) as [H|H]; [exact H|].
+    exfalso. apply H. cbn. eapply get_app_name_eq. exact G.
+  - rewrite G. f_equal. destruct x. cbn in S. subst. reflexivity.
+Qed.
+
+(** Server.restore only accepts an instance that names no server (put_guard) *)
+Lemma srv_restore_ok_unplaced c s a e c' x :
+  srv_restore c s a e = (c', true) -> get_app a (c_apps c) = Some x -> a_server x = None.
+Proof.
+  unfold srv_restore. intros H G. rewrite G in H. unfold srv_put_lease in H. rewrite G in H.
+  destruct (get_srv s (c_servers c)) as [sv|]; [|inversion H].
+  destruct (put_guard c sv x 0) eqn:PG; [|inversion H].
+  unfold put_guard in PG. destruct (a_server x); [|reflexivity].
+  rewrite andb_false_r in PG. discriminate.
+Qed.
+
 (** C11 on the scheduler model, one node: known instance, presence not younger than the node, Server.restore
     accepts it on the cell as it is -> placed on that server with the recorded expiry and (when recorded and
     restore_identity) the recorded identity; every other instance is as before *)
+(** general form: the put is attempted on the record with the server field cleared, so an instance already restored
+    under an earlier server is restored here as well (its identity and everything else are what they were) *)
+Theorem restore_node_restore s presence c n x0 c1 :
+  get_app (sn_app n) (c_apps c) = Some x0 ->
+  sched_verbatim presence n = true ->
+  srv_restore (clear_server c (sn_app n)) s (sn_app n) (Some (sn_expires n)) = (c1, true) ->
+  let '(c', act) := restore_node s presence true c n in
+  act = RRestore (sn_expires n) (sn_identity n) /\
+  (exists x, get_app (sn_app n) (c_apps c') = Some x /\ a_server x = Some s /\ a_expiry x = Some (sn_expires n) /\
+             a_identity x = match sn_identity n with Some i => Some i | None => a_identity x0 end) /\
+  forall b, b <> sn_app n -> get_app b (c_apps c') = get_app b (c_apps c).
+Proof.
+  intros G V R. unfold restore_node. rewrite G, V, R.
+  destruct (srv_restore_ok _ s (sn_app n) (sn_expires n) c1 R) as [y0 [y [G0 [G1 [S1 [E1 [I1 F1]]]]]]].
+  rewrite (clear_server_get c (sn_app n) x0 G) in G0. inversion G0; subst y0. cbn in I1.
+  assert (FC : forall b, b <> sn_app n -> get_app b (c_apps c1) = get_app b (c_apps c)).
+  { intros b NE. rewrite (F1 b NE). apply frame_clear_server. exact NE. }
+  destruct (sn_identity n) as [i|] eqn:ID.
+  - destruct (force_identity_spec c1 (sn_app n) i y G1) as [[z [Gz [Iz [Sz Ez]]]] Fz].
+    split; [reflexivity|]. split.
+    + exists z. repeat split; congruence.
+    + intros b NE. rewrite (Fz b NE). apply FC. exact NE.
+  - split; [reflexivity|]. split.
+    + exists y. repeat split; congruence.
+    + exact FC.
+Qed.
+
 Theorem restore_node_healthy s presence c n x0 c1 :
   get_app (sn_app n) (c_apps c) = Some x0 ->
   sched_verbatim presence n = true ->
@@ -118,17 +188,8 @@ Theorem restore_node_healthy s presence c n x0 c1 :
              a_identity x = match sn_identity n with Some i => Some i | None => a_identity x0 end) /\
   forall b, b <> sn_app n -> get_app b (c_apps c') = get_app b (c_apps c).
 Proof.
-  intros G V R. unfold restore_node. rewrite G, V, R.
-  destruct (srv_restore_ok c s (sn_app n) (sn_expires n) c1 R) as [y0 [y [G0 [G1 [S1 [E1 [I1 F1]]]]]]].
-  rewrite G in G0. inversion G0; subst y0.
-  destruct (sn_identity n) as [i|] eqn:ID.
-  - destruct (force_identity_spec c1 (sn_app n) i y G1) as [[z [Gz [Iz [Sz Ez]]]] Fz].
-    split; [reflexivity|]. split.
-    + exists z. repeat split; congruence.
-    + intros b NE. rewrite (Fz b NE). apply F1. exact NE.
-  - split; [reflexivity|]. split.
-    + exists y. repeat split; congruence.
-    + exact F1.
+  intros G V R. apply (restore_node_restore s presence c n x0 c1 G V).
+  rewrite (clear_server_unplaced c (sn_app n) x0 G (srv_restore_ok_unplaced _ _ _ _ _ _ R G)). exact R.
 Qed.
 
 (** * Frame of one node's processing: no other instance is touched *)
@@ -203,18 +264,20 @@ Proof.
   assert (FF : forall c' (o : option Z), get_app b (c_apps (match o with Some i => force_identity c' (sn_app n) i | None => c' end))
                          = get_app b (c_apps c')).
   { intros c' [i|]; [apply frame_force; exact NE|reflexivity]. }
+  pose proof (frame_clear_server c (sn_app n) b NE) as FC.
+  pose proof (clear_server_get c (sn_app n) a G) as G0. set (c0 := clear_server c (sn_app n)) in *.
   destruct (sched_verbatim presence n).
-  - unfold srv_restore. rewrite G.
-    destruct (srv_put_lease c s (sn_app n) 0) as [c'|] eqn:P; cbn [fst snd].
+  - unfold srv_restore. rewrite G0.
+    destruct (srv_put_lease c0 s (sn_app n) 0) as [c'|] eqn:P; cbn [fst snd].
     + rewrite FF. unfold c_upd_app. cbn. rewrite get_upd_other; [|reflexivity|congruence].
-      eapply frame_srv_put_lease; eassumption.
+      rewrite <- FC. eapply frame_srv_put_lease; eassumption.
     + assert (E : get_app b (c_apps (c_upd_app (sn_app n) (fun x => x <| a_expiry := Some (sn_expires n) |>) c))
                   = get_app b (c_apps c)).
       { unfold c_upd_app. cbn. apply get_upd_other; [reflexivity|congruence]. }
       destruct (a_once a); cbn [fst]; [rewrite frame_remove_app by exact NE|]; exact E.
   - destruct (a_once a); cbn [fst]; [apply frame_remove_app; exact NE|].
-    unfold srv_put. rewrite G. destruct (srv_put_lease c s (sn_app n) (a_lease a)) as [c'|] eqn:P; cbn [fst].
-    + rewrite FF. eapply frame_srv_put_lease; eassumption.
+    unfold srv_put. rewrite G0. destruct (srv_put_lease c0 s (sn_app n) _) as [c'|] eqn:P; cbn [fst].
+    + rewrite FF. rewrite <- FC. eapply frame_srv_put_lease; eassumption.
     + reflexivity.
 Qed.
 
@@ -242,6 +305,27 @@ Proof.
   intros ND cpre G V R.
   unfold restore_nodes. rewrite fold_left_app. cbn [fold_left]. fold (restore_nodes s presence true c pre). fold cpre.
   pose proof (restore_node_healthy s presence cpre n x0 c1 G V R) as H.
+  destruct (restore_node s presence true cpre n) as [c' act] eqn:RN. destruct H as [_ [[x [Gx [Sx [Ex Ix]]]] _]].
+  exists x. split; [|auto]. cbn [fst].
+  fold (restore_nodes s presence true c' post). rewrite frame_restore_nodes; [exact Gx|].
+  rewrite map_app in ND. cbn in ND. apply NoDup_remove_2 in ND. intros C. apply ND. apply in_or_app. right. exact C.
+Qed.
+
+(** the same for an instance that may already name a server (restored under an earlier server of the same load):
+    Server.restore is evaluated on the record with the server field cleared *)
+Theorem restore_nodes_restore s presence pre n post c x0 c1 :
+  NoDup (map sn_app (pre ++ n :: post)) ->
+  let cpre := restore_nodes s presence true c pre in
+  get_app (sn_app n) (c_apps cpre) = Some x0 ->
+  sched_verbatim presence n = true ->
+  srv_restore (clear_server cpre (sn_app n)) s (sn_app n) (Some (sn_expires n)) = (c1, true) ->
+  exists x, get_app (sn_app n) (c_apps (restore_nodes s presence true c (pre ++ n :: post))) = Some x /\
+            a_server x = Some s /\ a_expiry x = Some (sn_expires n) /\
+            a_identity x = match sn_identity n with Some i => Some i | None => a_identity x0 end.
+Proof.
+  intros ND cpre G V R.
+  unfold restore_nodes. rewrite fold_left_app. cbn [fold_left]. fold (restore_nodes s presence true c pre). fold cpre.
+  pose proof (restore_node_restore s presence cpre n x0 c1 G V R) as H.
   destruct (restore_node s presence true cpre n) as [c' act] eqn:RN. destruct H as [_ [[x [Gx [Sx [Ex Ix]]]] _]].
   exists x. split; [|auto]. cbn [fst].
   fold (restore_nodes s presence true c' post). rewrite frame_restore_nodes; [exact Gx|].
